@@ -204,3 +204,8 @@ pub fn vx_ends_with(x: &[u8], p: &[u8]) -> (r: bool)
     proof { assert(x@.subrange(x.len() - p.len(), x.len() as int) =~= p@); }
     true
 }
+
+// rule R10: `debug_assert!(E)` becomes a call whose precondition is E
+pub fn vx_debug_assert(b: bool)
+    requires b
+{}
